@@ -125,7 +125,14 @@ def r2(ctx, F, rid='C14.R2'):
                     inlined_deliveries.append(fn)
             continue
         if b is None:
-            ctx.bad(rid, '%s:set_local_mtime-exists' % fn.split('::')[-1], '%s no longer sets the destination mtime' % fn, None)
+            # the fn exists but does not call set_local_mtime itself: the stamp may sit in a helper it awaits (`staged.commit(mtime)`),
+            # which is not followed here - or it may be gone; which of the two is not decided
+            from callgraph import callgraph_of as _cgo
+            elsewhere = _cgo(F).reaches_callee(fn, lambda c: c == 'meta::set_local_mtime')
+            if not elsewhere:
+                ctx.bad(rid, '%s:set_local_mtime-exists' % fn.split('::')[-1], '%s no longer sets the destination mtime (neither itself nor through anything it calls)' % fn, None)
+                continue
+            ctx.undecided(rid, '%s does not set the destination mtime itself (a function it calls does: %s)' % (fn.split('::')[-1], elsewhere[0][0].path.split('::{')[0]))
             continue
         fl = flow_of(b)
         for sb, st in fl.calls_to('meta::set_local_mtime'):
